@@ -1342,36 +1342,101 @@ func (r *runner) runProtocols() {
 
 // runProtoRange runs a batch in one worker; when the worker dies the batch is split to attribute the crash.
 func (r *runner) runProtoRange(items []protoItem) {
-	t0 := time.Now()
-	res := runBatch(items, 300)
+	for len(items) > 0 {
+		res := runBatch(items, 300) //nolint:gomnd
+		if !res.crashed && !res.timeout {
+			for _, it := range items {
+				r.emitProto("proto", it, res, false)
+			}
 
-	if os.Getenv("C03_TIMING") != "" {
-		fmt.Fprintf(os.Stderr, "c03: batch of %d (%s/%d..) took %v\n", len(items), items[0].pc.Proto, items[0].pc.Index, time.Since(t0))
-	}
-	if !res.crashed && !res.timeout {
-		for _, it := range items {
-			r.emitProto("proto", it, res, false)
-		}
-
-		return
-	}
-
-	if len(items) == 1 {
-		// confirm alone once more (a loaded machine must not produce a false alarm)
-		res2 := runBatch(items, 800)
-		if !res2.crashed && !res2.timeout {
-			r.emitProto("proto", items[0], res2, true)
 			return
 		}
 
-		r.emitProto("proto", items[0], res2, true)
+		if len(items) == 1 {
+			// confirm alone once more (a loaded machine must not produce a false alarm)
+			r.emitProto("proto", items[0], runBatch(items, 800), true) //nolint:gomnd
 
+			return
+		}
+
+		if !res.crashed {
+			r.bisectProto(items)
+			return
+		}
+
+		// the worker died: the culprit is (nearly always) the first message that was not acknowledged or one of the
+		// few before it (handlers work asynchronously); each candidate is run alone
+		k := res.lastOK + 1
+		if k >= len(items) {
+			k = len(items) - 1
+		}
+
+		lo := k - 3 //nolint:gomnd
+		if lo < 0 {
+			lo = 0
+		}
+
+		found := -1
+
+		for j := k; j >= lo && found < 0; j-- {
+			alone := runBatch(items[j:j+1], 800) //nolint:gomnd
+			if alone.crashed || alone.timeout {
+				again := runBatch(items[j:j+1], 800) //nolint:gomnd
+				if again.crashed || again.timeout {
+					r.emitProto("proto", items[j], again, true)
+
+					found = j
+				}
+			}
+		}
+
+		if found < 0 {
+			r.bisectProto(items)
+			return
+		}
+
+		for i, it := range items[:k+1] {
+			if i != found {
+				r.emitProto("proto", it, batchResult{lastOK: res.lastOK}, false)
+			}
+		}
+
+		items = items[k+1:]
+
+		r.mu.Lock()
+		r.crashes++
+		tooMany := r.crashes > 30 //nolint:gomnd
+		r.mu.Unlock()
+
+		if tooMany {
+			// the agent dies on so many inputs that attributing each costs more than it tells: the rest is not run
+			fmt.Fprintf(os.Stderr, "c03: more than 30 crashing protocol inputs attributed; %d inputs of this batch not run\n", len(items))
+			return
+		}
+	}
+}
+
+// bisectProto splits a batch that failed without a usable hint.
+func (r *runner) bisectProto(items []protoItem) {
+	if len(items) == 1 {
+		r.emitProto("proto", items[0], runBatch(items, 800), true) //nolint:gomnd
 		return
 	}
 
 	mid := len(items) / 2
-	r.runProtoRange(items[:mid])
-	r.runProtoRange(items[mid:])
+
+	for _, half := range [][]protoItem{items[:mid], items[mid:]} {
+		res := runBatch(half, 300) //nolint:gomnd
+		if !res.crashed && !res.timeout {
+			for _, it := range half {
+				r.emitProto("proto", it, res, false)
+			}
+
+			continue
+		}
+
+		r.bisectProto(half)
+	}
 }
 
 // replySeq: the peer's answers to the request of an application call.
